@@ -148,19 +148,27 @@ func (k *keyLog) since(m int) map[string]string {
 type sniff struct {
 	net.Conn
 	w, r []byte
+	max  int // bytes kept per direction (0 = sniffMax)
 }
 
 var sniffMax = 128
 
+func (s *sniff) limit() int {
+	if s.max > 0 {
+		return s.max
+	}
+	return sniffMax
+}
+
 func (s *sniff) Write(p []byte) (int, error) {
-	if len(s.w) < sniffMax {
+	if len(s.w) < s.limit() {
 		s.w = append(s.w, p...)
 	}
 	return s.Conn.Write(p)
 }
 func (s *sniff) Read(p []byte) (int, error) {
 	n, err := s.Conn.Read(p)
-	if n > 0 && len(s.r) < sniffMax {
+	if n > 0 && len(s.r) < s.limit() {
 		s.r = append(s.r, p[:n]...)
 	}
 	return n, err
